@@ -350,6 +350,33 @@ def _roundtrip_table(prog: Program, ctx: Ctx) -> None:  # noqa: PLR0912,PLR0915
             n += 1
             ctx.ob("R6", f"signature|{style}|{kind}|defaults|warn_unknown_params={warn}", gotd == [("x", "1"), ("y", None)],
                    f"{style}: defaults of the {kind} items x (signature default 1) and y (none), warn_unknown_params={warn}: {gotd}", where(fn))
+    # Examples: console snippets are left as written with trim_doctest_flags=False; with True (default) the `# doctest:` flags go away and `<BLANKLINE>`
+    # lines become empty lines
+    ex_lines = [">>> print(f(1))  # doctest: +SKIP", "a", "<BLANKLINE>", "b"]
+    for style, trim in itertools.product(("google", "numpy"), (True, False)):
+        doc_lines = ["Summary.", "", *(["Examples:", *["    " + ln for ln in ex_lines]] if style == "google" else ["Examples", "--------", *ex_lines])]
+        got = parse(style, doc_lines, parent(), trim_doctest_flags=trim)
+        got4 = [g_[1] for g_ in got if g_[0] == "examples"] if isinstance(got, list) else got
+        want4 = [[("examples", "\n".join([">>> print(f(1))", "a", "", "b"] if trim else ex_lines))]]
+        n += 1
+        ctx.ob("R6", f"examples|{style}|trim_doctest_flags={trim}", got4 == want4, f"{style}, trim_doctest_flags={trim}: the snippet {ex_lines} parses to {got4}; expected {want4}",
+               where(prog.function(f"_griffe.docstrings.{style}.parse_{style}")))
+    # Attributes written without a type take the annotation of the documented member - declared in the class body or inherited from a base class
+    ccls_ = prog.cls("_griffe.models.Class")
+    own_m = Obj(None, {"name": "own", "annotation": "OWN", "is_alias": False, "__closed__": True}, label="own")
+    inh_m = Obj(None, {"name": "inh", "annotation": "INH", "is_alias": True, "__closed__": True}, label="inherited")
+    for style in ("google", "numpy", "sphinx"):
+        kpar = Obj(ccls_, {"name": "K", "path": "m.K", "members": {"own": own_m}, "inherited_members": {"inh": inh_m}, "all_members": {"inh": inh_m, "own": own_m},
+                           "labels": set(), "parameters": {}, "__closed__": True}, label="K")
+        if style == "sphinx":
+            lines3 = ["Summary.", "", ":var own: Declared here.", ":var inh: Inherited."]
+        else:
+            lines3 = _render(style, [("attributes", [("own", None, ["Declared here."]), ("inh", None, ["Inherited."])])])
+        got = parse(style, lines3, kpar)
+        got3 = [(a, b) for g_ in got if g_[0] == "attributes" for a, b, _c in g_[1]] if isinstance(got, list) else got
+        n += 1
+        ctx.ob("R6", f"signature|{style}|attributes|declared and inherited", got3 == [("own", "OWN"), ("inh", "INH")],
+               f"{style}: untyped Attributes items of a class that declares `own: OWN` and inherits `inh: INH`: {got3}", where(prog.function(f"_griffe.docstrings.{style}.parse_{style}")))
     # Numpy: several names documented by one item (`x, y`) without a type: each takes its own annotation and default from the signature
     fn = prog.function("_griffe.docstrings.numpy.parse_numpy")
     par2 = parent({"x": ("SIG_X", "1"), "y": ("SIG_Y", None)})
